@@ -99,7 +99,7 @@ CFG = {
     "prop_file": "Properties/C01.v",
     "run_modules": ["Verif.C01.Run"],
     "coq_dirs": ["C01"],
-    "n": {"quick": 4000, "thorough": 400000},
+    "n": {"quick": 4000, "thorough": 100000},
     "gen_extra": "vp=50",
     "shard": 250,
     "max_report": 2,
